@@ -138,10 +138,14 @@ func body(c config, r *run) func(x *vsched.Exec) {
 		if err != nil {
 			panic(err)
 		}
+		// the tag stage stands in front of the aggregation stage as in the server, with a filter that no line of the scripts
+		// satisfies: it changes nothing, but every parser goroutine passes through the one stage (the -race pass sees what
+		// the stage shares between them)
+		var head gostatsd.PipelineHandler = statsd.NewTagHandler(bh, nil, []statsd.Filter{{MatchMetrics: gostatsd.StringMatchList{gostatsd.NewStringMatch("no.such.metric*")}, DropTags: gostatsd.StringMatchList{gostatsd.NewStringMatch("zz*")}}})
 		in := make(chan []*statsd.Datagram)
 		vsched.GoNamed("bh.Run", func() { runnables[0](ctx) })
 		for i := 0; i < c.P; i++ {
-			p := statsd.NewDatagramParser(in, "", false, 0, bh, 0, false, fx.Quiet())
+			p := statsd.NewDatagramParser(in, "", false, 0, head, 0, false, fx.Quiet())
 			vsched.GoNamed("parser", func() { p.Run(ctx) })
 		}
 		vsched.GoNamed("flusher", func() { runnables[2](ctx) }) // [1] is the handler's own statistics emitter
